@@ -2673,29 +2673,37 @@ impl Translator {
             std::collections::hash_map::Entry::Occupied(o) => o.get().clone(),
             std::collections::hash_map::Entry::Vacant(v) => {
                 st.funcs_to_generate.push(desc.clone());
-                let label = match &desc.overload_ty {
-                    None => func_name.clone(),
-                    Some(overload_ty) => {
-                        let monoty = overload_ty.monotype().unwrap();
-                        let mut label_hint = format!("{func_name}__%{monoty}");
-                        if let FuncKind::AnonymousFunc {
-                            capture_types_concrete,
-                            ..
-                        } = desc.kind
-                            && !capture_types_concrete.is_empty()
-                        {
-                            let label_hint = &mut label_hint;
-                            swrite!(label_hint, "__%");
-                            for (i, ty) in capture_types_concrete.into_iter().enumerate() {
-                                if i != 0 {
-                                    swrite!(label_hint, ",");
-                                }
-                                swrite!(label_hint, "{ty}");
-                            }
+                // a lambda whose own type is not generic still has one body per instantiation of
+                // the generic function around it
+                let instantiated_captures = matches!(&desc.kind, FuncKind::AnonymousFunc { capture_types, .. }
+                    if capture_types.iter().any(|ty| ty.is_overloaded()));
+                let label = if desc.overload_ty.is_none() && !instantiated_captures {
+                    func_name.clone()
+                } else {
+                    let mut label_hint = match &desc.overload_ty {
+                        None => func_name.clone(),
+                        Some(overload_ty) => {
+                            let monoty = overload_ty.monotype().unwrap();
+                            format!("{func_name}__%{monoty}")
                         }
-                        label_hint.retain(|c| !c.is_whitespace());
-                        make_label(&label_hint)
+                    };
+                    if let FuncKind::AnonymousFunc {
+                        capture_types_concrete,
+                        ..
+                    } = desc.kind
+                        && !capture_types_concrete.is_empty()
+                    {
+                        let label_hint = &mut label_hint;
+                        swrite!(label_hint, "__%");
+                        for (i, ty) in capture_types_concrete.into_iter().enumerate() {
+                            if i != 0 {
+                                swrite!(label_hint, ",");
+                            }
+                            swrite!(label_hint, "{ty}");
+                        }
                     }
+                    label_hint.retain(|c| !c.is_whitespace());
+                    make_label(&label_hint)
                 };
                 v.insert(label.clone());
                 label
